@@ -14,6 +14,7 @@ import (
 	"os"
 	"path/filepath"
 	"sort"
+	"strings"
 	"sync"
 	"time"
 
@@ -41,6 +42,10 @@ func genC19(seed uint64, tier string) *Plan {
 	p.Knobs["rsize"] = float64(r.rng(1, 4))
 	p.Knobs["idfn"] = float64(b2i(r.chance(0.3)))                     // message ID = hash of the payload
 	p.Knobs["idw_threshold"] = float64([]int{1, 32, 1024}[r.intn(3)]) // IDONTWANT (an urgent push) for small messages too
+	if r.chance(0.25) {
+		p.Knobs["fanout_only_last"] = 1 // the last topic is joined with FanoutOnly(): subscriptions to it are local only
+	}
+	p.Knobs["px"] = float64(r.intn(2))
 	genDegrees(r, p, 4)
 	nt := p.ki("ntopics", 1)
 	add := func(op string, a ...int64) { p.Items = append(p.Items, Item{Op: op, A: a}) }
@@ -73,7 +78,7 @@ func genC19(seed uint64, tier string) *Plan {
 		case x < 48:
 			add("graft", i, t)
 		case x < 53:
-			add("prune", i, t, int64(r.intn(2)*r.rng(1, 20)))
+			add("prune", i, t, int64(r.intn(2)*r.rng(1, 20)), int64(r.intn(2)*r.rng(1, 3))) // with or without peer-exchange records
 		case x < 59:
 			add("pub", i, t, int64(r.rng(8, 100)))
 		case x < 61:
@@ -86,9 +91,12 @@ func genC19(seed uint64, tier string) *Plan {
 			add("node-pub-same", int64(r.intn(6)), int64(r.intn(2))) // a payload the node has published or received before
 		case x < 71:
 			add("node-pub-key", t, int64(r.rng(8, 100))) // per-publish identity (refused by the no-sign policies)
-		case x < 74:
+		case x < 73:
 			// a batch; bit k of the mask makes message k a local-only publication
 			add("node-batch", t, int64(r.rng(1, 4)), int64(r.intn(16)), int64(r.rng(8, 100)))
+		case x < 74:
+			// one batch object used again while its first load still waits for the event loop
+			add("node-batch-race", t, int64(r.rng(8, 100)))
 		case x < 78:
 			add("disconnect", i)
 		case x < 83:
@@ -175,7 +183,62 @@ func runC19(s *sim) {
 		return
 	}
 	router := w.n.router
+	fanoutOnlyTopic := ""
+	if p.kb("fanout_only_last") {
+		fanoutOnlyTopic = w.topics[len(w.topics)-1]
+		w.n.topicOpts = func(name string) []TopicOpt {
+			if name == fanoutOnlyTopic {
+				return []TopicOpt{FanoutOnly()}
+			}
+			return nil
+		}
+	}
 	idOf := func(m *pb.Message) string { return w.n.ps.idGen.RawID(m) }
+	// every push on a peer's outbound queue and its outcome (verifObservePush), whoever pushes:
+	// announcements and their retries, the three routers
+	accepted := map[peer.ID]int{}
+	refused := map[peer.ID]int{}
+	defer func() { verifObservePushFn = nil }()
+	verifObservePushFn = func(q *rpcQueue, rpc *RPC, err error) {
+		// (event loop goroutine: the peer table is its own)
+		var pid peer.ID
+		for id, x := range w.n.ps.peers {
+			if x == q {
+				pid = id
+			}
+		}
+		s.mu.Lock()
+		defer s.mu.Unlock()
+		if err == nil {
+			accepted[pid]++
+		} else {
+			refused[pid]++
+		}
+	}
+	armed := 0
+	defer func() { verifYieldFn = nil }()
+	verifYieldFn = func(point int) {
+		if point != verifLoopRequest {
+			return
+		}
+		s.mu.Lock()
+		a := armed > 0
+		if a {
+			armed--
+		}
+		s.mu.Unlock()
+		if a {
+			s.park("loop-request", nil, nil, nil)
+		}
+	}
+	releaseLoop := func() {
+		for _, g := range s.parkedGates() {
+			if strings.HasPrefix(g.id, "loop-request") {
+				s.release(g, 0)
+			}
+		}
+		s.settle()
+	}
 	// every RPC the gossipsub router hands to a peer's queue (verifObserveSendRPC: after
 	// piggy-backing, before the push) -- the independent count SEND_RPC + DROP_RPC is compared with
 	attempts := map[peer.ID]int{}
@@ -273,6 +336,46 @@ func runC19(s *sim) {
 		}
 		s.do("PublishBatch", func() any { return w.n.ps.PublishBatch(&b) })
 	}
+	w.extraOps["node-batch-race"] = func(it Item) {
+		if w.n.gs() == nil {
+			return
+		}
+		topic := w.topicName(it.a(0))
+		tp, err := w.n.topic(topic)
+		if err != nil {
+			return
+		}
+		var b MessageBatch
+		d1, d2 := w.mkData(int(it.a(1))), w.mkData(int(it.a(1))+1)
+		localPubs += 2
+		ownData = append(ownData, [2]string{topic, string(d1)}, [2]string{topic, string(d2)})
+		s.do("AddToBatch "+topic, func() any { return tp.AddToBatch(s.bgctx(), &b, d1) })
+		// the loop is busy; the batch is handed over (one slot of buffer) and PublishBatch returns
+		s.mu.Lock()
+		armed = 1
+		s.mu.Unlock()
+		s.spawn("GetTopics (keeps the loop busy)", func() any { return len(w.n.ps.GetTopics()) })
+		s.settle()
+		s.do("PublishBatch", func() any { return w.n.ps.PublishBatch(&b) })
+		// the same batch object takes the next message: its first step needs the loop ...
+		c := s.spawn("AddToBatch (same batch object) "+topic, func() any { return tp.AddToBatch(s.bgctx(), &b, d2) })
+		s.settle()
+		// ... which, once released, is held again on whatever it takes next (the seeded select
+		// decides between the waiting batch and the waiting step of AddToBatch)
+		s.mu.Lock()
+		armed = 1
+		s.mu.Unlock()
+		releaseLoop()
+		s.mu.Lock()
+		armed = 0
+		s.mu.Unlock()
+		releaseLoop()
+		releaseLoop()
+		if c.isDone(s) {
+			s.probe("batch_object_reused_while_first_load_waits")
+		}
+		s.do("PublishBatch (second load)", func() any { return w.n.ps.PublishBatch(&b) })
+	}
 
 	replay := func() {
 		w.n.mu.Lock()
@@ -345,7 +448,7 @@ func runC19(s *sim) {
 		// joins
 		truth := map[string]bool{}
 		for t, n := range sn.mySubs {
-			if n > 0 {
+			if n > 0 && t != fanoutOnlyTopic {
 				truth[t] = true
 			}
 		}
@@ -449,6 +552,20 @@ func runC19(s *sim) {
 			}
 			s.mu.Unlock()
 		}
+		// every router, announcements included: an accepted push has its SEND_RPC, a refused one its
+		// DROP_RPC (DROP_RPC is also traced for fragments that are never pushed: lower bound)
+		s.mu.Lock()
+		for _, fp := range w.allFakes() {
+			if accepted[fp.id] != sendN[fp.id] {
+				s.violate("C19", "send-rpc", "C19/"+router+"/accepted-push-vs-send-rpc", "the outbound queue of %s accepted %d RPCs, the trace has %d SEND_RPC events for it", fp.name, accepted[fp.id], sendN[fp.id])
+			}
+			if refused[fp.id] > dropN[fp.id] {
+				s.violate("C19", "send-rpc", "C19/"+router+"/refused-push-without-drop-rpc", "the outbound queue of %s refused %d RPCs, the trace has only %d DROP_RPC events for it", fp.name, refused[fp.id], dropN[fp.id])
+			} else if refused[fp.id] > 0 {
+				s.probe("refused_pushes_checked")
+			}
+		}
+		s.mu.Unlock()
 		// SEND_RPC vs frames on healthy streams: peers that had exactly one outbound stream from the
 		// node, never stalled, alive at the end
 		for _, fp := range w.allFakes() {
